@@ -239,18 +239,43 @@ func (h history) replay(extra map[string]interface{}) map[string]interface{} {
 		ops[i] = o.String()
 	}
 	m := map[string]interface{}{"constructor": h.Ctor, "history": ops}
+	short := func(b []byte) string {
+		if len(b) > 4096 {
+			return fmt.Sprintf("%s... (%d bytes; regenerate with the recorded seed)", vh.Hex(b[:256]), len(b))
+		}
+		return vh.Hex(b)
+	}
 	if h.Msg != nil {
-		m["block_serialized"] = vh.Hex(serBlock(h.Msg))
+		m["block_serialized"] = short(serBlock(h.Msg))
 		m["transactions"] = len(h.Msg.Transactions)
 	}
 	if h.Input != nil {
-		m["constructor_bytes"] = vh.Hex(h.Input)
+		m["constructor_bytes"] = short(h.Input)
 		m["trailing_bytes"] = h.Trailing
 	}
 	for k, v := range extra {
 		m[k] = v
 	}
 	return m
+}
+
+// withProbes inserts out-of-range accesses after every call of the history: whatever has been
+// cached so far, a negative or too large index must give an error (and must not disturb anything).
+func withProbes(r *vh.RNG, ops []opSpec, n int) []opSpec {
+	var out []opSpec
+	probes := func() {
+		cands := []opSpec{{"tx", -1}, {"txhash", -1}, {"tx", int64(n)}, {"txhash", int64(n)}, {"tx", math.MinInt64}, {"txhash", int64(n) + 1}}
+		k := 1 + r.Intn(3)
+		for j := 0; j < k; j++ {
+			out = append(out, vh.Pick(r, cands))
+		}
+	}
+	probes()
+	for _, o := range ops {
+		out = append(out, o)
+		probes()
+	}
+	return out
 }
 
 func runHistory(h history, corr bool) {
@@ -380,7 +405,7 @@ func runHistory1(h history, corr bool) {
 		}
 		wAt[i] = t
 	}
-	for k, o := range h.Ops {
+	execOp := func(k int, o opSpec) {
 		switch o.Kind {
 		case "tx":
 			t, e := b.Tx(int(o.Arg))
@@ -465,7 +490,7 @@ func runHistory1(h history, corr bool) {
 			if e != nil {
 				viol(k, "C16:bytes:error", "Bytes() failed", map[string]interface{}{"error": fmt.Sprint(e)})
 				outs = append(outs, "XErr 2")
-				break
+				return
 			}
 			if trusted && !bytes.Equal(got, fresh) {
 				viol(k, "C16:bytes:fresh", "Bytes() differs from a fresh MsgBlock().Serialize()", map[string]interface{}{"Bytes()": vh.Hex(got), "len(Bytes())": len(got), "fresh": vh.Hex(fresh), "len(fresh)": len(fresh)})
@@ -486,7 +511,7 @@ func runHistory1(h history, corr bool) {
 				}
 				outs = append(outs, "XErr 2")
 				trace = append(trace, "txloc err")
-				break
+				return
 			}
 			raw, _ := b.Bytes()
 			if trusted {
@@ -513,6 +538,17 @@ func runHistory1(h history, corr bool) {
 			height = int32(o.Arg)
 			outs = append(outs, "XUnit")
 			trace = append(trace, "setheight")
+		}
+	}
+	for k, o := range h.Ops {
+		nOuts := len(outs)
+		if p, msg := vh.Catch(func() { execOp(k, o) }); p {
+			// a panic ends the history; it is recorded as an observation so that the model is asked too
+			viol(k, "C16:panic", "a Block accessor panicked", map[string]interface{}{"panic": msg, "call": o.String()})
+			outs = append(outs[:nOuts], "XPanic 1")
+			trace = append(trace, "PANIC")
+			h.Ops = h.Ops[:k+1]
+			break
 		}
 	}
 	// the message itself was not touched
@@ -725,6 +761,8 @@ func main() {
 				h := mkHistory(r, ctor, m, 0)
 				h.Ops = ops
 				runHistory(h, !cfg.Search)
+				h.Ops = withProbes(r, ops, n)
+				runHistory(h, false)
 			}
 			_ = ci
 		}
@@ -771,6 +809,41 @@ func main() {
 			ncorr++
 		}
 		runHistory(h, corr)
+		if i%4 == 1 {
+			h.Ops = withProbes(r, h.Ops, n)
+			runHistory(h, !cfg.Search && i%40 == 1 && n <= 4 && len(h.Ops) <= 24)
+		}
+	}
+
+	// --- the transaction-count varint: 0xfc | 0xfd boundary (and 0xffff | 0x10000 in the wider tiers)
+	r = rng.Fork("varint")
+	counts := []int{252, 253, 254, 300}
+	if cfg.Thorough() || cfg.Search {
+		counts = append(counts, 65535, 65536)
+	}
+	for _, n := range counts {
+		m := genBlock(r, 0, false)
+		for i := 0; i < n; i++ {
+			t := wire.NewMsgTx(1)
+			var hsh chainhash.Hash
+			copy(hsh[:], r.Bytes(32))
+			t.AddTxIn(wire.NewTxIn(wire.NewOutPoint(&hsh, uint32(i)), nil))
+			if n < 1000 && i%3 == 0 {
+				t.AddTxOut(wire.NewTxOut(int64(i), r.Bytes(r.Intn(4)), wire.TokenData{}))
+			}
+			m.AddTransaction(t)
+		}
+		for _, ctor := range ctors {
+			if n > 1000 && ctor != "new" && ctor != "bytes" {
+				continue
+			}
+			h := mkHistory(r, ctor, m, 0)
+			h.Ops = []opSpec{{"txloc", 0}, {"tx", int64(n - 1)}, {"txhash", int64(n - 1)}, {"tx", int64(n)}, {"bytes", 0}, {"txloc", 0}, {"txhash", 252}, {"tx", 253}}
+			if n < 1000 {
+				h.Ops = append(h.Ops, opSpec{"txs", 0}, opSpec{"tx", -1}, opSpec{"txloc", 0})
+			}
+			runHistory(h, false)
+		}
 	}
 
 	// --- bytes wire must reject / bytes that are altered: constructors from bytes and readers
